@@ -1,6 +1,7 @@
 (** C11 — green threads: property theorems only (model: C11/Model.v, repaired scheduler). *)
 From Coq Require Import ZArith List.
 From ChibiV Require Import C11.Model C11.Invariant C11.SchedProofs C11.Theorems C11.Round2 C11.Sorted.
+From ChibiV Require C11.Prog C11.ProgProofs.
 Import ListNotations.
 
 Theorem queues_wellformed : forall s, reachable s ->
@@ -117,3 +118,45 @@ Theorem timed_wait_bounded : forall s n1 n2 t, inv s -> tinv s -> In t (paused s
   (t = cur s' \/ In t (front s')) /\ waitp (th s' t) = false.
 Proof. exact timed_wait_bounded_thm. Qed.
 Print Assumptions timed_wait_bounded.
+
+(** round 3: programs (C11/Prog.v: thread language with the retry loops of lib/srfi/18/interface.scm on top of the scheduler
+    model; Prog.run : fuel -> schedule -> prog -> outcome).
+    FULL STATEMENT aimed at (DESIGN.md section 4, schedule_independence_locked): for every program in which every access to a
+    shared variable x happens while holding the mutex assigned to x and whose critical sections on one variable are commutative
+    updates OR are totally ordered by the program's own synchronisation (join / condvar handshake), Prog.run yields the same
+    final store and thread results for ALL fair schedules (positive slices), and it yields them (every fair run finishes).
+    PROVED below (…_partial): the commutative-update class decided by Prog.properly_locked, n threads, nested sections,
+    timed locks (neutral bodies) and condvar waits included, for ALL schedules (any slice lengths incl. 0, any clock advances):
+    every run that finishes has the outcome computed from the program text alone, hence any two finishing runs agree.
+    MISSING: (1) liveness — that a run under a fair schedule finishes (neither OutOfFuel, LockFailed nor Abandoned) is not
+    proved (it is checked: the canonical run of every generated program must be Finished, and on the real binary every
+    schedule must end with every thread finished and every untimed lock granted); (2) the class "sections totally ordered by
+    join / condvar handshake" (results that depend on values read from shared variables) is not covered. *)
+Theorem mutex_sections_do_not_interleave : forall P, Prog.properly_locked P = true ->
+  forall M, ProgProofs.mreach P M ->
+  (forall t u m, ProgProofs.inside M t m -> ProgProofs.inside M u m -> t = u) /\
+  (forall t m, ProgProofs.inside M t m ->
+     locked (mx (Prog.sch M) m) = true /\ owner (mx (Prog.sch M) m) = Some t) /\
+  (forall t x k r, Prog.code (Prog.ts M t) = Prog.IWrite x k :: r ->
+     Prog.tmp (Prog.ts M t) = Prog.store M x /\ ProgProofs.holds (Prog.sch M) t (Prog.mu P x)).
+Proof. exact ProgProofs.mutex_sections_do_not_interleave_thm. Qed.
+Print Assumptions mutex_sections_do_not_interleave.
+
+Theorem finished_outcome_is_static : forall P, Prog.properly_locked P = true ->
+  forall fuel sc v r, Prog.run fuel sc P = Prog.Finished v r ->
+  v = ProgProofs.expected_vals P /\ r = ProgProofs.expected_results P.
+Proof. exact ProgProofs.finished_outcome_is_static_thm. Qed.
+Print Assumptions finished_outcome_is_static.
+
+Theorem schedule_independence_locked_partial : forall P, Prog.properly_locked P = true ->
+  forall fuel1 sc1 fuel2 sc2 v1 r1 v2 r2,
+    Prog.run fuel1 sc1 P = Prog.Finished v1 r1 -> Prog.run fuel2 sc2 P = Prog.Finished v2 r2 -> v1 = v2 /\ r1 = r2.
+Proof. exact ProgProofs.schedule_independence_locked_partial_thm. Qed.
+Print Assumptions schedule_independence_locked_partial.
+
+Theorem unlocked_sections_schedule_dependent :
+  Prog.properly_locked ProgProofs.ex_unlocked = false /\
+  Prog.run 2000 Prog.canonical ProgProofs.ex_unlocked = Prog.Finished [16%Z] [100%Z; 310%Z; 307%Z] /\
+  Prog.run 2000 (Prog.mkSl 2 0%Z :: ProgProofs.ones 200) ProgProofs.ex_unlocked = Prog.Finished [5%Z] [100%Z; 310%Z; 307%Z].
+Proof. exact ProgProofs.unlocked_sections_schedule_dependent_thm. Qed.
+Print Assumptions unlocked_sections_schedule_dependent.
